@@ -626,7 +626,7 @@ type Effect struct {
 	Roots  []Root
 	Via    string // non-empty if inherited from a callee: call chain
 
-	OrigFn    *ssa.Function   // set on inherited effects: where the store really is
+	OrigFn    *ssa.Function // set on inherited effects: where the store really is
 	OrigInstr ssa.Instruction
 }
 
@@ -727,19 +727,19 @@ func (p *Prog) summary(f *ssa.Function) *fnSummary {
 // library calls that write through an argument (index) — receiver is index 0 for methods
 var extWrites = map[string][]int{
 	"sort.Sort": {0}, "sort.Stable": {0}, "sort.Slice": {0}, "sort.SliceStable": {0}, "sort.Strings": {0}, "sort.Ints": {0},
-	"math/rand.Shuffle":             nil,
-	"(*bytes.Buffer).WriteString":   {0},
-	"(*bytes.Buffer).Write":         {0},
-	"(*bytes.Buffer).WriteRune":     {0},
-	"(*bytes.Buffer).WriteByte":     {0},
-	"(*bytes.Buffer).WriteTo":       {0},
-	"(*bytes.Buffer).Reset":         {0},
-	"(*bytes.Buffer).Truncate":      {0},
-	"(*bytes.Buffer).ReadFrom":      {0},
+	"math/rand.Shuffle":              nil,
+	"(*bytes.Buffer).WriteString":    {0},
+	"(*bytes.Buffer).Write":          {0},
+	"(*bytes.Buffer).WriteRune":      {0},
+	"(*bytes.Buffer).WriteByte":      {0},
+	"(*bytes.Buffer).WriteTo":        {0},
+	"(*bytes.Buffer).Reset":          {0},
+	"(*bytes.Buffer).Truncate":       {0},
+	"(*bytes.Buffer).ReadFrom":       {0},
 	"(*strings.Builder).WriteString": {0},
-	"(*sync.Map).Store": {0}, "(*sync.Map).LoadOrStore": {0}, "(*sync.Map).Delete": {0}, "(*sync.Map).LoadAndDelete": {0},
+	"(*sync.Map).Store":              {0}, "(*sync.Map).LoadOrStore": {0}, "(*sync.Map).Delete": {0}, "(*sync.Map).LoadAndDelete": {0},
 	"(*sync.Map).Swap": {0}, "(*sync.Map).CompareAndSwap": {0}, "(*sync.Map).CompareAndDelete": {0},
-	"(*sync.Mutex).Lock":            nil, "(*sync.Mutex).Unlock": nil, "(*sync.RWMutex).Lock": nil, "(*sync.RWMutex).Unlock": nil,
+	"(*sync.Mutex).Lock": nil, "(*sync.Mutex).Unlock": nil, "(*sync.RWMutex).Lock": nil, "(*sync.RWMutex).Unlock": nil,
 	"(*sync.RWMutex).RLock": nil, "(*sync.RWMutex).RUnlock": nil,
 }
 
